@@ -7,6 +7,7 @@ coroutine's tree contains no `force` of it: the result is *literally the same tr
 whatever delayed expression (evaluating to anything, raising, diverging) sits there.
 -/
 import UH.Model.Interp
+import UH.Proofs.Unforced
 import UH.Properties.C02
 namespace UH.C03
 open UH Comp
@@ -99,5 +100,34 @@ theorem try_handler_lazy (sp : Span) (body h h' : Arg) (r : Res) :
   simp only [bTry, checkArity, callArg, Bind.bind, Comp.bind, List.length_cons, List.length_nil,
     List.contains_cons, List.contains_nil, beq_self_eq_true, Bool.or_false, if_true, Comp.tryCatch]
   cases r <;> rfl
+
+/-! ### the general statement, for every program -/
+
+/-- **an expression whose evaluation is never started is irrelevant.**  Take any machine state `m` (any program, at
+any point of its evaluation), any delayed expression `u` and any number of steps `n`.  If the run does not start
+evaluating `u`, then replacing what `u` delays by *anything* — an expression that raises, never terminates, or
+would perform I/O, in any environment — leaves the status (printed result / exception / limit), the world
+(standard input and output, files), all frames, the observer's events and the set of started expressions
+unchanged; the stores differ only in the expression and environment recorded for `u`.
+(`Proofs/Unforced.lean`: `step` is re-stated with its active frame explicit and proved equal to it; the simulation
+is proved once for that form.) -/
+theorem unforced_irrelevant (u : TId) (e : AST) (env : Env) (n : Nat) (m : MState) (hu : u ∉ (runN n m).starts) :
+    let r := runN n m
+    let r' := runN n { m with store := Unforced.patchCell m.store u e env }
+    r'.status = r.status ∧ r'.world = r.world ∧ r'.head = r.head ∧ r'.tail = r.tail ∧ r'.events = r.events ∧
+      r'.starts = r.starts ∧ r'.depth = r.depth ∧ Unforced.StoreRel u r.store r'.store :=
+  Unforced.unforced_irrelevant u e env n m hu
+
+/-- the only place where the machine reads what a cell delays is the start of its evaluation, which is logged:
+a cell that already has a value, or any cell other than `u`, yields the same frame whatever `u` delays -/
+theorem newFrame_reads_only_started (u t : TId) (s s' : Store) (h : Unforced.StoreRel u s s')
+    (ht : t ≠ u ∨ (s.getCell t).value ≠ none) : newFrame s' t = newFrame s t :=
+  Unforced.newFrame_rel h t ht
+
+/-- non-vacuity: a run that allocates a delayed expression (here the marker `bomb`) and finishes without starting it -/
+def demoRun : MState :=
+  initState initStore default (.newThunk .bomb ⟨[], []⟩ fun _ => .ret (.arg (.strict (.int 1))))
+
+example : initStore.cells.size ∉ (runN 5 demoRun).starts := by decide +kernel
 
 end UH.C03
